@@ -495,7 +495,7 @@ class Mode:
         return Mode(self.spec, self.old, None, self.result, binds, True)
 
 
-PURE_BUILTINS = {"len", "isinstance", "id", "hasattr", "bool", "tuple", "frozenset", "min", "max", "abs", "callable", "type", "iter", "int"}
+PURE_BUILTINS = {"getattr", "len", "isinstance", "id", "hasattr", "bool", "tuple", "frozenset", "min", "max", "abs", "callable", "type", "iter", "int"}
 SPEC_FUNCS = {"after", "values", "entry", "implies", "old", "call", "call2", "all", "any", "no_dups", "seq", "setof", "filt", "addall", "cat", "forall", "exists",
               "is_tuple", "ite", "fresh", "contents", "keys", "dget", "dhas", "rng", "idof", "rev", "prefix", "isinst", "truth",
               "subseq_of", "perm", "count", "sorted_by", "index", "pair", "slice_adj", "typeis", "allocated", "ghost"}
@@ -1089,6 +1089,20 @@ def _patch_engine():
                 return sv_bool(False)
         raise OutOfSubset(f"hasattr {ast.unparse(node)}")
     E.sf_hasattr = sf_hasattr
+
+    def sf_getattr(self, node, st, m):
+        """getattr(x, "const", default): an uninterpreted attribute lookup per attribute name (the class attribute is not
+        modelled as a heap field: it is assumed not to change during the call)"""
+        if len(node.args) != 3:
+            raise OutOfSubset("getattr with 2 arguments")
+        x = self.pev(node.args[0], st, m)
+        nm = self.pev(node.args[1], st, m)
+        if nm.kind != "py" or not isinstance(nm.py, str):
+            raise OutOfSubset("getattr with a computed name")
+        f = Function("getattr_" + nm.py, V, V)
+        self.assumptions.add(f"getattr(obj, {nm.py!r}, default) is a pure lookup of a class attribute that does not change during the call")
+        return SV("v", f(self.to_v(x)), None)
+    E.sf_getattr = sf_getattr
 
     def sf_min(self, node, st, m):
         a, b = [self.as_int(self.pev(x, st, m)) for x in node.args]
@@ -2168,7 +2182,7 @@ def _patch_loops():
                                 fnc = FUNCS[CLASSES[r.hint].methods[extra.func.attr]]
                         except Exception:
                             pass
-                    if tgt and (tgt.startswith("havoc:") or tgt == "ddset"):
+                    if tgt and (tgt.startswith("havoc:") or tgt in ("ddset", "newdeque")):
                         continue
                     if fnc is None or any(mm == "*" for mm in fnc.modifies):
                         raise OutOfSubset(f"loop body calls {txt} whose frame is unknown")
@@ -2480,6 +2494,9 @@ def _patch_calls():
             if tgt.startswith("havoc:"):
                 # unknown side-effect-free-on-modelled-state call returning an unconstrained value of the given type
                 return self.ev_list(node.args, st, ctx, lambda svs, st2: k(self.fresh_sv("r", tgt[6:]), st2))
+            if tgt == "newdeque":
+                r, st2 = self.alloc_obj(st, "deque", "dq")
+                return k(r, self.hset(st2, "$seq", r.t, L.sempty))
             if tgt == "ddset":
                 r, st2 = self.alloc_obj(st, "ddset", "dd")
                 st2 = self.hset(st2, "$dd", r.t, K(V, K(V, False)))
@@ -3181,6 +3198,10 @@ def _patch_run():
             elif rng == Sq:
                 hy.append(ForAll([o, i], Implies(And(Select(a0, o), 0 <= i, i < L.slen(Select(arr, o))), Select(a0, L.at(Select(arr, o), i))),
                                  patterns=[L.at(Select(arr, o), i)]))
+            elif rng == MapS and nm == "$dval" and "$dkeys" in self.heap0:
+                kk = Const("kk", V)
+                hy.append(ForAll([o, kk], Implies(And(Select(a0, o), L.mem(Select(self.heap0["$dkeys"], o), kk)), Select(a0, Select(Select(arr, o), kk))),
+                                 patterns=[Select(Select(arr, o), kk)]))
             elif rng == SetS and nm != "$ddkeys":
                 hy.append(ForAll([o, x], Implies(And(Select(a0, o), Select(Select(arr, o), x)), Select(a0, x)),
                                  patterns=[Select(Select(arr, o), x)]))
